@@ -142,6 +142,31 @@ func runLexerBackup(c *Ctx) {
 				}
 				switch fn.Name() {
 				case "backupChar", "backupChars", "backupCharsTo":
+				case "skipByte":
+					// skipByte moves the token start one byte and one column on:
+					// the character just consumed must be one byte wide
+					n++
+					key := fmt.Sprintf("%s.%s/%s#%d", rel, FuncName(fr.Decl), fn.Name(), n)
+					var clause *ast.CaseClause
+					for i := len(stack) - 2; i >= 0 && clause == nil; i-- {
+						if cc, ok := stack[i].(*ast.CaseClause); ok && i >= 2 {
+							if sw, ok := stack[i-2].(*ast.SwitchStmt); ok && sw.Tag != nil {
+								if b, ok := info.TypeOf(sw.Tag).Underlying().(*types.Basic); ok && b.Kind() == types.Int32 {
+									clause = cc
+								}
+							}
+						}
+					}
+					ascii := clause != nil && clause.List != nil
+					if ascii {
+						for _, e := range clause.List {
+							if !isASCIIConstRune(info, e) {
+								ascii = false
+							}
+						}
+					}
+					c.Check(ascii, key, call.Pos(), "skipByte() outside a case arm whose labels are ASCII constants: after a character wider than one byte the next token would start in the middle of that character")
+					return true
 				default:
 					return true
 				}
